@@ -692,8 +692,17 @@ func init() {
 				Items: func(string) []Item {
 					return sItems("init", []string{"Full", "Uniform", "Normal", "HeUniform", "HeNormal", "XavierUniform", "XavierNormal"}, items(map[string]int64{}))
 				}},
+			{Name: "C09_val_index", Pkg: "tensor/zzv", Func: "H_C09_val_index", Reach: []string{"accepted", "rejected"}, BV: true,
+				What:  "validator layer alone at full 64-bit width (bit-vector integers with wrap-around): At / Slice / Patch index validators, dimension sizes in [1,2^40], every index argument ANY int64",
+				Items: tiered(func() []Item { return sItems("fn", []string{"At", "Slice", "Patch"}, rankItems(0, 2, 0, nil)) }, func() []Item { return sItems("fn", []string{"At", "Slice", "Patch"}, rankItems(0, 3, 0, nil)) })},
+			{Name: "C09_val_dim", Pkg: "tensor/zzv", Func: "H_C09_val_dim", Reach: []string{"accepted", "rejected"}, BV: true,
+				What:  "reducer / Flatten / UnSqueeze / Squeeze / Transpose / InputDims validators with the dim argument ANY int64",
+				Items: func(string) []Item { return sItems("fn", []string{"Reduced", "Flatten", "UnSqueeze", "Squeeze", "Transpose", "InputDims"}, rankItems(0, 3, 0, nil)) }},
+			{Name: "C09_val_shapes", Pkg: "tensor/zzv", Func: "H_C09_val_shapes", Reach: []string{"accepted", "rejected"}, BV: true,
+				What:  "Reshape (sizes <= 2^15 so products cannot wrap) / Broadcast / dims-match / Dot / MatMul shape validators over symbolic 64-bit sizes",
+				Items: tiered(func() []Item { return sItems("fn", []string{"Reshape", "Broadcast", "Match", "Dot", "MatMul"}, pairItems(0, 2, 0)) }, func() []Item { return sItems("fn", []string{"Reshape", "Broadcast", "Match", "Dot", "MatMul"}, pairItems(0, 3, 0)) })},
 		},
-		Assumptions: []string{"preconditions and result shapes per DESIGN Appendix A", "foreign implementations of the Tensor interface are not exercised", numericModel},
+		Assumptions: []string{"preconditions and result shapes per DESIGN Appendix A", "validator layer at full width: dimension sizes in [1,2^40] (a MaxInt64-sized dimension makes dims[i]+1 wrap, an input no caller can allocate); Reshape sizes <= 2^15", "foreign implementations of the Tensor interface are not exercised", numericModel},
 		Outside:     "live tensors above rank 3 / size 3, slices longer than 3, depth-4 nested data with lengths above 2; hangs are detected only as an exhausted step budget",
 	})
 }
